@@ -27,6 +27,22 @@ def histories(rng, tier, n=None):
             ops.append("join 1 2 %s %s %s" % (KEY.hex(), machist.draws(r, 40), r.choice(["txdone", "txdone", "txing", "idle", "err"])))
             ops += r.choice([["timeout", "phy rx" + ja.hex()], ["phy txdone", "timeout", "phy rx" + ja.hex()], ["timeout", "timeout", "timeout", "phy rx" + ja.hex()],
                              ["timeout", "phy rx" + bad.hex(), "timeout", "timeout", "phy rx" + ja.hex()], ["timeout", "timeout", "timeout", "timeout"]])
+        # structured uplink procedures: send, (txdone), window timeouts, a frame in RX1 or RX2
+        for _ in range(r.below(3)):
+            ans = r.choice(["txdone", "txing"])
+            ops.append("send %s %d %d %s %s" % (r.hex(r.below(5)), r.range(1, 223), r.below(2), machist.draws(r, 40), ans))
+            if ans == "txing":
+                ops.append("phy txdone")
+            kind = r.choice(["good", "good", "mac", "foreign", "replay", "junk", "none"])
+            where = r.below(2)
+            ops.append("timeout")
+            if where == 1 or kind == "none":
+                ops += ["timeout", "timeout"]
+            if kind != "none":
+                if kind in ("good", "mac"):
+                    st["down"] += 1
+                ops.append("phy rx" + frame(r, st["down"], kind).hex())
+            ops += ["timeout"] * r.below(4)
         for _ in range(r.range(2, 12)):
             k = r.below(12)
             if k < 3:
